@@ -377,7 +377,8 @@ func c15rExec(t *testing.T, scn c15rScenario) (mc.Result, [2][c15rShards]int, in
 			srv := stores[d]
 			plan := srv.PlanRef()
 			plan.OnRequest = func(r *redisd.Req) {
-				if r.Name() != "eval" || len(r.Argv) < 6 {
+				script, isEval := c15EvalScript(srv, r)
+				if !isEval || len(r.Argv) < 6 {
 					return
 				}
 				who := -1
@@ -392,7 +393,7 @@ func c15rExec(t *testing.T, scn c15rScenario) (mc.Result, [2][c15rShards]int, in
 				if who < 0 && !end {
 					viol("an election call carries a contender id that is not the instance's Server.ListenPeer", "C15:run:unexpected-contender-id", map[string]interface{}{"id": string(r.Argv[4])})
 				}
-				isCampaign := strings.Contains(string(r.Argv[1]), "EXPIRE")
+				isCampaign := strings.Contains(script, "EXPIRE")
 				if who >= 0 && !end && isCampaign && string(r.Argv[5]) != wantTTL {
 					viol("the lease period handed to the store differs from the whole seconds of leaseTimeout", "C15:run:store-ttl", map[string]interface{}{"ttl_argument": string(r.Argv[5]), "expected_s": wantTTL})
 				}
@@ -688,4 +689,21 @@ func c15rReplay(t *testing.T, rep *mc.Reporter, rp *mc.Replay) bool {
 	res, _, _ := c15rExec(t, scn)
 	rep.Exec(scn, nil, res)
 	return true
+}
+
+
+// c15EvalScript: the script text of an election request. An EVALSHA of a script the store has cached is the
+// same call as the EVAL of its text (a tool may send either); an EVALSHA the store answers NOSCRIPT executes
+// nothing and is no election request.
+func c15EvalScript(srv *redisd.Server, r *redisd.Req) (string, bool) {
+	if len(r.Argv) < 2 {
+		return "", false
+	}
+	switch r.Name() {
+	case "eval":
+		return string(r.Argv[1]), true
+	case "evalsha":
+		return srv.ScriptOfLocked(string(r.Argv[1]))
+	}
+	return "", false
 }
